@@ -188,7 +188,7 @@ pub fn exec_supply(check: &str, t: &SupplyTrace, scratch: &Scratch, rec: &mut Ru
     for v in &o.verdicts {
         // digit runs are masked: positions inside a document depend on the length of ECDSA / RSA-PSS
         // signatures, whose bytes ring's entropy decides (DESIGN §2.2)
-        let masked: String = v.short().chars().map(|c| if c.is_ascii_digit() { '#' } else { c }).collect();
+        let masked: String = crate::exec::mask_scratch(&v.short()).chars().map(|c| if c.is_ascii_digit() { '#' } else { c }).collect();
         d.str(&masked);
         d.update(&(v.clock_reads as u64).to_le_bytes());
         d.update(&(v.hash_draws as u64).to_le_bytes());
